@@ -175,14 +175,16 @@ class bound_composite_array(base_array):
         return new_element
 
     def extend(self, elem_seq):
-        if self._max_len and len(self) + len(elem_seq) > self._max_len:
-            raise ProphyError("exceeded array limit")
-
         composite_cls = self._TYPE
+        new_elements = []
         for message in elem_seq:
             new_element = composite_cls()
             new_element.copy_from(message)
-            self._values.append(new_element)
+            new_elements.append(new_element)
+
+        if self._max_len and len(self) + len(new_elements) > self._max_len:
+            raise ProphyError("exceeded array limit")
+        self._values.extend(new_elements)
 
     def __delitem__(self, idx):
         del self._values[idx]
